@@ -124,6 +124,28 @@ where
         let token = *frame.reset_token();
         self.cid_deque.insert(seq, Some((seq, id, token))).unwrap();
         self.retire_prior_to(retire_prior_to);
+
+        // RFC 9000 §5.1.1: after adding and retiring connection IDs, the number of active
+        // connection IDs must not exceed the active_connection_id_limit we advertised.
+        // Active = received, not below retire_prior_to, and not retired by the path that held it.
+        let retired_by_path = self
+            .ready_cells
+            .iter()
+            .filter(|cell| cell.is_retired())
+            .count();
+        let active_cids = self.cid_deque.iter().flatten().count() - retired_by_path;
+        if active_cids as u64 > self.active_cid_limit {
+            return Err(QuicError::new(
+                ErrorKind::ConnectionIdLimit,
+                frame.frame_type().into(),
+                format!(
+                    "{active_cids} active connection ids exceed active_cid_limit {}",
+                    self.active_cid_limit
+                ),
+            )
+            .into());
+        }
+
         self.arrange_idle_cid();
 
         Ok(Some(token))
